@@ -2,7 +2,7 @@
 import itertools, json, os, random, shutil, concurrent.futures as cf
 import vp, record_checks as rc
 
-CLASSES = ["bare", "space", "quote", "eq", "empty", "utf8", "bslash", "squote", "num", "dash", "comma"]
+CLASSES = ["bare", "space", "quote", "eq", "empty", "utf8", "bslash", "squote", "num", "dash", "comma", "spaceeq", "quoteeq"]
 PAYLOADS = ["word", "spaces", "padded", "newline", "quotes", "eq", "dollar", "bslash", "utf8", "empty", "eqstart", "long4096", "long70000"]
 
 
@@ -104,7 +104,7 @@ def run(prop, tier, seed, replay=None):
         rep.cov.update({"states": states, "transitions": transitions, "model_checking_runs": runs,
                         "traces_validated_against_impl": consumed, "real_runs_with_retry": nrun, "real_binary_start_restart_retry": ncli, "tokenizer_strings": consumed - nrun - ncli,
                         "evaluations": consumed, "distinct_nontrivial": consumed - 1,
-                        "rule": "runs: 1 or 2 parameters, positional or named, values from 11 classes (bare, blanks, double quotes, '=', empty, UTF-8, backslashes, single quote, number, leading dashes, punctuation), "
+                        "rule": "runs: 1 or 2 parameters, positional or named, values from 13 classes (bare, blanks, double quotes, '=', empty, UTF-8, backslashes, single quote, number, leading dashes, punctuation, a blank before '=', a quote before '='), "
                                 "given at start or as the DAG's default, x 13 output payload classes (blanks, padding to trim, newlines, quotes, '=', literal $VAR, backslashes, UTF-8, empty, 4096 and 70000 bytes); "
                                 "every run is started through the real loader + agent and then retried as cmd/retry.go does; consumers: adjacent step, exit handler, non-adjacent step and handler in the retry; "
                                 "cli: the first scenarios again through the real binary: client.Start (start -p \"...\"), restart while running, retry of the canceled run; "
